@@ -19,11 +19,11 @@ MODULES = SPEC_MODULES + ['Model.Server', 'Model.ServerRun', 'Model.ServerExec']
 STATE = {'model_ok': True}
 
 
-def prepare(ctx):
+def prepare(ctx, extra_gen=()):
     """translate, build the Spec evaluator and the model, prove, build the harness. Returns False when
     nothing can be run. When only the model (or a generated table it imports) no longer compiles,
     the implementation is still compared with the Spec."""
-    ctx.translate(['Consts.v', 'AuthzTable.v', 'ServerFlow.v'])
+    ctx.translate(['Consts.v', 'AuthzTable.v', 'ServerFlow.v'] + list(extra_gen))
     spec_ok = ctx.build_models(SPEC_MODULES)
     STATE['model_ok'] = ctx.build_models(MODULES) if spec_ok else False
     ctx.prove()
@@ -1069,3 +1069,89 @@ def replay_streams(ctx):
     scases = [(case_from_json(c), tuple(s)) for c, s in rp['stream_cases']]
     stream_pass(ctx, scases, rp.get('observed', 'all'), rp.get('name', 'correspondence:byte-stream'), rp.get('stream_key', 'server.byte-stream'), reopen=bool(rp.get('reopen')))
     ctx.coverage.update({'evaluations': len(scases), 'distinct_nontrivial': len(scases), 'rule': 'replay of a byte-stream case', 'samples': [], 'input_classes': {}})
+
+
+# ------------------------------------------------------------------------------------------ TLS + authorization through the C ABI and the Rust API
+# `verif-harness ffi_authz seq <server> <policy> <unit> <role>:<op>:<start>:<n>,...`: ONE TLS server with an authorization handler
+# (created through the C ABI or the Rust API), one client session per entry, each with the certificate of its role
+# (/verif/certs/ca2: operator, viewer, roleless = no role extension, tworoles = two role extensions).
+FFI_LABEL = {'rc': 'read_coils', 'rd': 'read_discrete_inputs', 'rh': 'read_holding_registers', 'ri': 'read_input_registers',
+             'wc': 'write_single_coil', 'wr': 'write_single_register', 'wmc': 'write_multiple_coils', 'wmr': 'write_multiple_registers'}
+
+
+def authz_policy(policy, label, role):
+    if policy == 'allow':
+        return True
+    if policy == 'deny':
+        return False
+    if policy == 'coils':
+        return 'coil' in label
+    return role == 'operator' or (role == 'viewer' and label.startswith('read_'))     # byrole
+
+
+def gen_authz_sequences(r, quick=True):
+    seqs = []
+    ops = list(FFI_LABEL)
+    for server in ('ffi', 'rust'):
+        # every request kind under a policy that separates kinds, and under one that separates roles
+        seqs.append((server, 'coils', 1, tuple(('operator', op, 1, 2) for op in ops)))
+        seqs.append((server, 'byrole', 1, tuple((role, op, 1, 2) for op in ('wmr', 'rh', 'wc') for role in ('operator', 'viewer'))))
+        # an earlier allowed session with another role must not carry over
+        seqs.append((server, 'byrole', 1, (('operator', 'wc', 1, 1), ('viewer', 'wmr', 1, 2), ('viewer', 'rh', 1, 2), ('operator', 'wr', 2, 9))))
+        seqs.append((server, 'byrole', 1, (('viewer', 'rc', 0, 3), ('operator', 'wmc', 1, 2), ('viewer', 'wc', 1, 1))))
+        # a certificate without a usable role gets no session at all, whatever the policy
+        seqs.append((server, 'deny', 1, (('roleless', 'wr', 1, 7), ('operator', 'wr', 1, 7))))
+        seqs.append((server, 'allow', 1, (('tworoles', 'wmr', 1, 2), ('roleless', 'rh', 1, 1), ('viewer', 'rh', 1, 1))))
+        for _ in range(2 if quick else 12):
+            pol = r.choice(['coils', 'byrole', 'byrole', 'deny', 'allow'])
+            k = r.choice([2, 3, 5])
+            seqs.append((server, pol, r.choice([1, 7, 200]), tuple((r.choice(['operator', 'viewer', 'viewer', 'roleless']), r.choice(ops), r.randrange(0, 8), r.choice([1, 2])) for _ in range(k))))
+    return seqs
+
+
+def authz_line(sq):
+    server, pol, unit, sess = sq
+    return f'seq {server} {pol} {unit} ' + ','.join(f'{ro}:{op}:{st}:{n}' for ro, op, st, n in sess)
+
+
+def run_authz_sequences(ctx, seqs):
+    import os
+    out = ctx.harness('ffi_authz', [authz_line(s) for s in seqs], args=[vlib.REPO, os.path.join(vlib.ROOT, 'certs')], shards=4, timeout=900)
+    res = []
+    for sq, line in zip(seqs, out):
+        server, pol, unit, sess = sq
+        got = line.split(';')
+        per = []
+        for k, (role, op, st, n) in enumerate(sess):
+            g = got[k] if k < len(got) else line
+            label = FFI_LABEL[op]
+            usable = role in ('operator', 'viewer')
+            client = g.split(' ')[0][len('client='):] if g.startswith('client=') else g
+            count = g.rsplit(' x', 1)[1] if ' x' in g else '?'
+            auth = g.split(' auth=', 1)[1].rsplit(' x', 1)[0] if ' auth=' in g else '?'
+            if not usable:
+                want = {'served': False, 'queries': '0'}
+                ok_effect = not client.startswith('OK')
+                ok_full = ok_effect and count == '0'
+            else:
+                allowed = authz_policy(pol, label, role)
+                arg = f'{st}' if op in ('wc', 'wr') else f'{st},{max(n, 1)}'
+                want_auth = f'{label}:{unit}:{arg}:{role}'
+                want = {'served': True, 'allowed': allowed, 'query': want_auth}
+                ok_effect = client.startswith('OK') if allowed else client == 'EX:IllegalFunction'
+                ok_full = ok_effect and auth == want_auth and count == '1'
+            per.append({'session': k + 1, 'role': role, 'op': op, 'got': g, 'want': want, 'ok_effect': ok_effect, 'ok_full': ok_full})
+        res.append(per)
+    return out, res
+
+
+def replay_authz_sequences(ctx, effect_only):
+    """bin/check C02|C08 --replay <file> for an authorization-sequence violation"""
+    seqs = [(a, b, c, tuple(tuple(x) for x in d)) for a, b, c, d in ctx.replay['authz_sequences']]
+    out, res = run_authz_sequences(ctx, seqs)
+    bad = [(sq, o, p) for sq, o, per in zip(seqs, out, res) for p in per if not (p['ok_effect'] if effect_only else p['ok_full'])]
+    ctx.oblige('tls-authorization-sequences:replay', not bad, str([x[2] for x in bad[:1]])[:300])
+    for sq, o, p in bad[:1]:
+        ctx.violation(ctx.replay.get('key', 'authorization.tls.replay'), f'session #{p["session"]} got `{p["got"]}`, required {p["want"]}',
+                      {'authz_sequences': ctx.replay['authz_sequences'], 'harness_line': 'ffi_authz: ' + authz_line(sq), 'impl': o})
+    ctx.coverage.update({'evaluations': len(seqs), 'distinct_nontrivial': len(seqs), 'rule': 'replay of an authorization sequence', 'samples': [], 'input_classes': {}})
